@@ -83,6 +83,7 @@ def check(rep, ctx):
                   file=S.modules[S.classes[k]["module"]]["path"], line=S.classes[k]["line"])
     # c: progress
     cmin = {}
+    unknown = set()
 
     def class_min(key):
         if key in cmin:
@@ -90,7 +91,8 @@ def check(rep, ctx):
         cmin[key] = 0  # cycle guard
         plan = W.bundle["classes"].get(key)
         if plan is None or plan["error"]:
-            return 0
+            unknown.add(key)
+            return 1  # unknown: do not turn an analysis limit into a progress violation
         tot = 1 if plan["flexible"] else 0
         for pf in plan["fields"]:
             if pf.get("r") is not None and pf["r_index"] is not None:
